@@ -34,6 +34,8 @@ type HarnessFile struct {
 	NoIfConv   bool
 	BoundsDoc  []string
 	AssumeDoc  []string
+	LazyFork   bool
+	EngineOnly map[string]bool
 }
 
 func parseHarnessFile(path string) (*HarnessFile, error) {
@@ -42,7 +44,7 @@ func parseHarnessFile(path string) (*HarnessFile, error) {
 		return nil, err
 	}
 	defer f.Close()
-	hf := &HarnessFile{Path: path, Budget: map[string]int{}, Intercepts: map[string]string{}, Thorough: map[string]bool{}, Backend: "z3"}
+	hf := &HarnessFile{Path: path, Budget: map[string]int{}, Intercepts: map[string]string{}, Thorough: map[string]bool{}, EngineOnly: map[string]bool{}, Backend: "z3"}
 	sc := bufio.NewScanner(f)
 	sc.Buffer(make([]byte, 1<<20), 1<<20)
 	for sc.Scan() {
@@ -74,6 +76,12 @@ func parseHarnessFile(path string) (*HarnessFile, error) {
 			hf.AssumeDoc = append(hf.AssumeDoc, val)
 		case "noifconvert":
 			hf.NoIfConv = true
+		case "lazyfork":
+			hf.LazyFork = true
+		case "engine-only":
+			for _, h := range strings.Fields(val) {
+				hf.EngineOnly[h] = true
+			}
 		case "budget":
 			for _, kv := range strings.Fields(val) {
 				k, v, _ := strings.Cut(kv, "=")
@@ -113,6 +121,8 @@ type Group struct {
 	Intercepts map[string]string
 	Thorough   map[string]bool
 	NoIfConv   bool
+	LazyFork   bool
+	EngineOnly map[string]bool
 }
 
 func groupFiles(files []*HarnessFile) []*Group {
@@ -122,7 +132,7 @@ func groupFiles(files []*HarnessFile) []*Group {
 		key := f.Pkg + "|" + f.Tags + "|" + f.Backend
 		g := m[key]
 		if g == nil {
-			g = &Group{Pkg: f.Pkg, PkgName: f.PkgName, Tags: f.Tags, Backend: f.Backend, Budget: map[string]int{}, Intercepts: map[string]string{}, Thorough: map[string]bool{}}
+			g = &Group{Pkg: f.Pkg, PkgName: f.PkgName, Tags: f.Tags, Backend: f.Backend, Budget: map[string]int{}, Intercepts: map[string]string{}, Thorough: map[string]bool{}, EngineOnly: map[string]bool{}}
 			m[key] = g
 			order = append(order, key)
 		}
@@ -138,6 +148,10 @@ func groupFiles(files []*HarnessFile) []*Group {
 			g.Thorough[k] = v
 		}
 		g.NoIfConv = g.NoIfConv || f.NoIfConv
+		g.LazyFork = g.LazyFork || f.LazyFork
+		for k, v := range f.EngineOnly {
+			g.EngineOnly[k] = v
+		}
 	}
 	var out []*Group
 	for _, k := range order {
